@@ -39,7 +39,7 @@ def run(chk):
             else:
                 ovf += 1
     if ovf < 20:
-        raise ToolError("vacuity: only %d overflowing puts" % ovf)
+        chk.vacuity("vacuity: only %d overflowing puts" % ovf)
     chk.cov["distinct_nontrivial"] = len(cases)
     return chk.finish("model_checking", RULE, extra={"overflow_attempts": ovf})
 
